@@ -2,43 +2,52 @@ import PlumVerif.Model.Entry
 import PlumVerif.Spec.C10
 /- line-protocol front end for the C10 interleaving machine
 
-  c10 <lk:0|1> <ev> …            ev = F<m> (feed m frames) | R (release oldest import) | G (user get)
+  c10 <lk:0|1> <cr> <ev> …
+      cr = addresses that have a device class, separated by "," (or "-")
+      ev = F<a>:<m> (m frames from address a) | R (the oldest pending class loading completes /
+           raises) | G<a> (a user get() for the name of address a)
       -> one snapshot per event, separated by " ; ":  held created setups pub disp handled gets
-         (pub: - | n;  disp: - | n,n;  handled: - | f.d,f.d;  gets: - | w|n,…), `reject` for an
-         event the machine does not accept (the replay stops there)
-  c10judge <frames> <snapshot> ; <snapshot> …   -> pass | fail@<k> | fail@final   (C10.spec)
+         (pub, disp: - | a.d,…;  handled: - | f.d,…;  gets: - | w|d,…), `reject` for an event the
+         machine does not accept (nothing to release, or no fixpoint within the pass bound); the
+         replay stops there
+  c10judge <cr> <fa> <ga> <snapshot> ; <snapshot> …   -> pass | fail@<k> | fail@final   (C10.spec)
+      fa / ga = addresses of the frames fed / of the get() calls, separated by "," (or "-")
 -/
 namespace PlumVerif.Entry
 
 def showList (xs : List String) : String := if xs.isEmpty then "-" else String.intercalate "," xs
 
+def showPairs (ps : List (Nat × Nat)) : String := showList (ps.map fun p => s!"{p.1}.{p.2}")
+
 def Snap.show (o : Snap) : String :=
-  let pub := match o.published with | some d => toString d | none => "-"
-  let disp := showList (o.dispatched.map toString)
-  let hand := showList (o.handled.map fun p => s!"{p.1}.{p.2}")
   let gets := showList (o.gets.map fun g => match g with | some d => toString d | none => "w")
-  s!"{o.held} {o.created} {o.setups} {pub} {disp} {hand} {gets}"
+  s!"{o.held} {o.created} {o.setups} {showPairs o.published} {showPairs o.dispatched} {showPairs o.handled} {gets}"
 
 def parseEv (w : String) : Option Ev :=
   if w = "R" then some .release
-  else if w = "G" then some .get
-  else if w.startsWith "F" then do
-    let m ← (w.drop 1).toNat?
-    if m = 0 then none else pure (.feed m)
+  else if w.startsWith "G" then (w.drop 1).toNat?.map .get
+  else if w.startsWith "F" then
+    match (w.drop 1).toString.splitOn ":" with
+    | [a, m] => do
+      let a ← a.toNat?; let m ← m.toNat?
+      if m = 0 then none else pure (.feed a m)
+    | _ => none
   else none
 
 def parseList (w : String) (f : String → Option α) : Option (List α) :=
   if w = "-" then some [] else (w.splitOn ",").mapM f
 
+def parsePair (w : String) : Option (Nat × Nat) :=
+  match w.splitOn "." with
+  | [a, b] => do let a ← a.toNat?; let b ← b.toNat?; pure (a, b)
+  | _ => none
+
 def parseSnap : List String → Option Snap
   | [held, created, setups, pub, disp, hand, gets] => do
     let held ← held.toNat?; let created ← created.toNat?; let setups ← setups.toNat?
-    let pub ← if pub = "-" then some none else (pub.toNat?).map some
-    let disp ← parseList disp String.toNat?
-    let hand ← parseList hand fun w =>
-      match w.splitOn "." with
-      | [a, b] => do let a ← a.toNat?; let b ← b.toNat?; pure (a, b)
-      | _ => none
+    let pub ← parseList pub parsePair
+    let disp ← parseList disp parsePair
+    let hand ← parseList hand parsePair
     let gets ← parseList gets fun w => if w = "w" then some none else (w.toNat?).map some
     pure { held, created, setups, published := pub, dispatched := disp, handled := hand, gets }
   | _ => none
@@ -50,23 +59,26 @@ def splitSemi (ws : List String) : List (List String) :=
     | [] => if w = ";" then [[], []] else [[w]]
     | g :: gs => if w = ";" then [] :: g :: gs else (w :: g) :: gs) []
 
-def judge (frames : Nat) (snaps : List Snap) : String :=
-  match snaps.findIdx? (fun o => !C10.snapOk o) with
+def judge (fa ga : List Nat) (cr : Nat → Bool) (snaps : List Snap) : String :=
+  match snaps.findIdx? (fun o => !C10.snapOk fa ga o) with
   | some k => s!"fail@{k}"
-  | none => if C10.spec frames snaps then "pass" else "fail@final"
+  | none => if C10.spec fa ga cr snaps then "pass" else "fail@final"
 
 def entryOps : List String → Option String
-  | "c10" :: lk :: evs => do
+  | "c10" :: lk :: cr :: evs => do
     let lk ← if lk = "1" then some true else if lk = "0" then some false else none
+    let cr ← parseList cr String.toNat?
     let evs ← evs.mapM parseEv
     if evs.isEmpty then none
-    pure (String.intercalate " ; " ((replay lk replay0 evs).map fun
+    pure (String.intercalate " ; " ((replay lk (fun a => cr.contains a) evs).map fun
       | some o => o.show
       | none => "reject"))
-  | "c10judge" :: frames :: rest => do
-    let frames ← frames.toNat?
+  | "c10judge" :: cr :: fa :: ga :: rest => do
+    let cr ← parseList cr String.toNat?
+    let fa ← parseList fa String.toNat?
+    let ga ← parseList ga String.toNat?
     let snaps ← (splitSemi rest).mapM parseSnap
-    pure (judge frames snaps)
+    pure (judge fa ga (fun a => cr.contains a) snaps)
   | _ => none
 
 end PlumVerif.Entry
